@@ -181,6 +181,38 @@ def bounded_interleavings(seed, n_hist, steps):
                 fail(klass, "repeating the query gave a different answer", dict(query=qn, a=repr(a), b=repr(b), first=repr(r1), second=repr(r2)))
             if len(samples) < 2 and ok1:
                 samples.append(dict(query=klass, a=repr(a)[:80], b=repr(b)[:80]))
+            # hidden state behind the query (memoised results, cached helper objects): the caller mutates the object it was handed, or moves an
+            # operand; the same question about unchanged / equal operands must still get the first answer
+            if qn == "intersection" and ok1 and r1 is not None and hasattr(r1, "move"):
+                first = repr(r1)
+                pool_ids = set()
+                for x in pool:
+                    pool_ids |= mutable_ids(x)
+                if not (mutable_ids(r1) & pool_ids):  # (a pass-through result is the operand itself: mutating it would change the question)
+                    a0, b0 = copy.deepcopy(a), copy.deepcopy(b)
+                    r1.move(V(3, -1, 2))
+                    ev += 1
+                    classes.add("requery:" + klass)
+                    for lab, qa, qb in (("same operands", a, b), ("equal operands (deep copies taken before the first query)", a0, b0)):
+                        try:
+                            r3 = repr(q(qa, qb))
+                        except Exception as e:
+                            r3 = repr(type(e))
+                        if r3 != first:
+                            fail("requery:" + klass, "the caller moved the result of a query; asking again (%s) gave a different answer" % lab,
+                                 dict(query=qn, a=repr(a), b=repr(b), first=first, second=r3))
+                    # an operand is moved away (in place); an equal copy taken before still gets the first answer
+                    if a is not b and hasattr(a, "move") and not isinstance(a, g.Point):
+                        back = V(-4, 6, -5)
+                        a.move(V(4, -6, 5))
+                        try:
+                            r4 = repr(q(a0, b0))
+                        except Exception as e:
+                            r4 = repr(type(e))
+                        a.move(back)
+                        if r4 != first:
+                            fail("requery:" + klass, "an operand was moved in place after the query; equal operands at the old position got a different answer",
+                                 dict(query=qn, a=repr(a0), b=repr(b0), first=first, second=r4))
         # factory functions keep returning what their names say after their results were mutated / used in moved objects
         z = g.Vector.zero()
         g.Line(z, V(1, 2, 2)).move(V(2, -1, 2))
@@ -217,6 +249,27 @@ def bounded_interleavings(seed, n_hist, steps):
                     fail("ownership:" + name, "deep copy not equal / not independent", dict(kind=name))
                 for p, s in zip(pts, saved):
                     p.x, p.y, p.z = s
+        # -polygon is a ConvexPolygon constructed from the polygon's points: it owns its data, moving either leaves the other alone
+        # (a Plane keeps the Point it is given - the property does not list Plane among the owning types - so -plane is not examined)
+        for x in list(pool):
+            if not isinstance(x, g.ConvexPolygon):
+                continue
+            try:
+                nx = -x
+            except Exception as e:
+                fail("negation:" + type(x).__name__, "negation raised %r" % (e,), dict(obj=repr(x)))
+                continue
+            ev += 1
+            classes.add("negation:" + type(x).__name__)
+            sx, snx = _native_snapshot(x), _native_snapshot(nx)
+            if mutable_ids(nx) & mutable_ids(x):
+                fail("negation:" + type(x).__name__, "-x shares mutable state with x", dict(obj=repr(x)))
+            nx.move(V(1, 2, -3))
+            if _native_snapshot(x) != sx:
+                fail("negation:" + type(x).__name__, "moving -x changed x", dict(obj=repr(x)))
+            nx.move(V(-1, -2, 3))
+            x2 = copy.deepcopy(x)
+            x2.move(V(2, 2, 2))
         # polyhedron ownership: mutate the face polygons after construction
         for ph in K.polyhedra(rng, 1):
             faces = [O.to_lib(("Polygon", f), "float") for f in ph[1]]
@@ -249,11 +302,71 @@ def bounded_interleavings(seed, n_hist, steps):
     return dict(evaluations=ev, classes=sorted(classes), failures=failures, samples=samples)
 
 
+def bounded_requery(seed, n_per):
+    """designed intersecting pairs of every type combination: the caller moves the object it was handed, then an operand; the same question about
+    unchanged / equal operands must keep its first answer (memoised results, cached helper objects and live parts handed out are hidden state)"""
+    from g3dvc import oracle as O
+    from g3dvc import catalogue as K
+    from g3dvc import bounded as B
+    g = load_repo()
+    V = g.Vector
+    acc = B.Acc()
+    rng = K.make_rng(seed + 21)
+    pairs = []
+    FL = ("Point", "Line", "HalfLine", "Segment", "Plane")
+    for ka in FL:
+        for kb in FL:
+            pairs += [(a, b, "%s-%s:%s" % (ka, kb, lab)) for a, b, lab in K.flat_pairs(ka, kb, rng, n_per)]
+    for body in list(K.polygons(rng, 2)) + list(K.polyhedra(rng, 2)):
+        for kind in FL:
+            pairs += [(f, body, "%s-%s:%s" % (kind, body[0], lab)) for f, lab in K.flat_vs_convex(kind, body, rng, n_per)]
+    pairs += [(a, b, "convex:" + lab) for a, b, lab in K.convex_pairs(rng, 6 * n_per)]
+    for a, b, klass in pairs:
+        exact = O.intersect(a, b)
+        if exact is None or not B.admitted(a, b, exact):
+            acc.skipped += 1
+            continue
+        for order in (0, 1):
+            x, y = (a, b) if order == 0 else (b, a)
+            try:
+                A, Bb = O.to_lib(x, "float"), O.to_lib(y, "float")
+                A0, B0 = copy.deepcopy(A), copy.deepcopy(Bb)
+                r1 = g.intersection(A, Bb)
+            except Exception as e:
+                continue  # (raising is C01-C04's business)
+            if r1 is None or not hasattr(r1, "move") or (mutable_ids(r1) & (mutable_ids(A) | mutable_ids(Bb))):
+                continue  # a pass-through result is the operand itself: mutating it changes the question
+            acc.case(klass)
+            first = repr(r1)
+            case = dict(a=B.ser(x), b=B.ser(y), first=first)
+            r1.move(V(3, -1, 2))
+            for lab, qa, qb in (("the same operands", A, Bb), ("equal operands copied before the first query", A0, B0)):
+                kind, val = B._call(g.intersection, qa, qb)
+                if repr(val) != first:
+                    acc.fail(klass, "the caller moved the result; asking again about %s gave %s, first answer %s" % (lab, repr(val)[:120], first[:120]), case)
+            if hasattr(A, "move") and not isinstance(A, g.Point):
+                A.move(V(4, -6, 5))
+                kind, val = B._call(g.intersection, A0, B0)
+                if repr(val) != first:
+                    acc.fail(klass, "the first operand was moved away in place; equal operands at the old position got %s, first answer %s" % (repr(val)[:120], first[:120]), case)
+            if hasattr(Bb, "move") and not isinstance(Bb, g.Point):
+                Bb.move(V(-2, 7, 1))
+                kind, val = B._call(g.intersection, A0, B0)
+                if repr(val) != first:
+                    acc.fail(klass, "the second operand was moved away in place; equal operands at the old position got %s, first answer %s" % (repr(val)[:120], first[:120]), case)
+            acc.sample(dict(klass=klass, a=B.ser(x), b=B.ser(y)))
+    return acc.result()
+
+
 def replay_case(case):
+    if "first" in (case or {}):
+        r = bounded_requery(0, 2)
+        return dict(fails=bool(r["failures"]), observed=[f["what"] for f in r["failures"][:2]])
     r = bounded_interleavings(0, 3, 60)
     return dict(fails=bool(r["failures"]), observed=r["failures"][:2])
 
 
 def bounded(tier, seed):
     n, steps = (6, 60) if tier == "quick" else (60, 200)
-    return [("interleavings with attribute snapshots", bounded_interleavings, (seed, n, steps), 3000)]
+    return [("interleavings with attribute snapshots", bounded_interleavings, (seed, n, steps), 3000),
+            ("same question again after the caller moved the result / an operand", bounded_requery, (seed, 8 if tier == "quick" else 30), 3000)]
